@@ -140,6 +140,9 @@ def canon_facet(f):
             out.append([k, canon_num(v)])
     return out
 
+def canon_facet_safe(f):
+    return sorted((k, repr(v)) for k, v in (f or {}).items())
+
 def oracle(run, allow, metrics, facet, case):
     """the property itself on the observed facet (no model involved)"""
     names = [m[0] for m in metrics]
@@ -291,15 +294,58 @@ def main():
                 file_model = lst if 'safe_metrics' in doc else []
             with contextlib.redirect_stdout(io.StringIO()):
                 allow = of_config.read_allowlist()
-            assert isinstance(allow, set)
             lin = Lineage()
-            exp = OTelLineageExporter(lin, allowlist=allow)
-            exp.export(mk_data(rng, metrics))
+            data = mk_data(rng, metrics)
+            if not isinstance(allow, set):
+                # the reader's contract is a set (empty = lock-down); anything else reaches the exporter as it is (None = allow all)
+                run.violation('read_allowlist:not-a-set returned=%r file=%s' % (allow, 'unset' if file_model is None else 'unusable' if file_model == 'fail' else 'list'),
+                              'read_allowlist() returned %r (environment %r, file %r): the exporter built on it treats None as "no restriction"' % (allow, env, file_model),
+                              dict(env=env, file=file_model, metrics=metrics))
+                exp = OTelLineageExporter(lin, allowlist=allow)
+                exp.export(data)
+                allow = set() if allow is None else set(allow)
+            else:
+                exp = OTelLineageExporter(lin, allowlist=allow)
+                exp.export(data)
             facet = lin.calls[0] if lin.calls else {}
+            # ... and the exporter as the telemetry client wires it up (OpenTelemetryClient.__init__ reads the allow-list and builds
+            # the bridge): the same batch through THAT exporter is judged against the configuration as well
+            lin2, built = Lineage(), []
+            class _Cap(OTelLineageExporter):
+                def __init__(self, *a, **k):
+                    super().__init__(*a, **k)
+                    built.append(self)
+            import openfilter.observability.bridge as of_bridge
+            import openfilter.observability.client as of_client
+            saved_cls = of_bridge.OTelLineageExporter
+            of_bridge.OTelLineageExporter = _Cap
+            try:
+                with contextlib.redirect_stdout(io.StringIO()):
+                    cl_ = of_client.OpenTelemetryClient(enabled=True, exporter_type='silent', lineage_emitter=lin2, export_interval_millis=10 ** 8)
+            finally:
+                of_bridge.OTelLineageExporter = saved_cls
+            facet2 = None
+            if built:
+                built[-1].export(data)
+                facet2 = lin2.calls[0] if lin2.calls else {}
+            try:
+                if getattr(cl_, 'provider', None) is not None:
+                    cl_.provider.shutdown()
+            except Exception:      # noqa
+                pass
             os.environ.pop('OF_SAFE_METRICS_FILE', None)
             os.environ.pop('OF_SAFE_METRICS', None)
             case = dict(env=env, file=file_model, metrics=metrics)
             oracle(run, sorted(allow), metrics, facet, case)
+            if facet2 is None:
+                run.count('client:no-bridge-built')
+            else:
+                run.count('client:bridge-built')
+                now2 = file_model if isinstance(file_model, list) else [x.strip() for x in (env or '').split(',') if x.strip()]
+                oracle(run, sorted(set(now2)), metrics, facet2, dict(case, configured_now=sorted(set(now2)), through='OpenTelemetryClient'))
+                if canon_facet_safe(facet2) != canon_facet_safe(facet):
+                    run.violation('client:bridge-differs', 'the exporter built by OpenTelemetryClient lets %r through, one built on read_allowlist() %r'
+                                  % (sorted(facet2), sorted(facet)), dict(case, through='OpenTelemetryClient'))
             # ... and judged against the configuration as it stands now (file and environment), whatever the reader returned
             # the file, when it can be read, IS the configuration (its safe_metrics list, empty if the key is missing or the list
             # is empty: lock-down); the environment variable counts only without a readable file
